@@ -94,3 +94,14 @@ claim("C08",
       "not proved; binary64 noise at exact half-twip ties is excluded (flagged).",
       "Rocq proof (Q arithmetic: field / lia / nia) + differential check on \\cellx values",
       "DESIGN.md section 6 C08, section 5 K4")
+claim("C09",
+      "Theorems (Coq, unbounded over rectangular attribute matrices): expansion to the full grid keeps "
+      "value[r mod R][c mod C] at every cell; after column removal the value at displayed column j is the user's value at "
+      "the original column of j; per-page re-basing reads table row start+i (scalars untouched); column order is "
+      "preserved. Against the implementation: check_c09 renders the expected cell from the attributes at the cell's "
+      "original (row, column) and compares every character / paragraph / cell / border property and \\cellx of every data "
+      "cell on every page, for all attributes in scalar / per-column / matrix shapes with 0..k removed columns.",
+      "The cell emitter (Encode.v) is shared between the expected cell and the model and is validated by C01's strict token "
+      "correspondence; boundary borders of the first/last data row of a page belong to C07.",
+      "Rocq proof (list arithmetic on broadcast / slice / re-base) + direct-rule differential check per cell",
+      "DESIGN.md section 6 C09, section 5 K3")
